@@ -11,7 +11,7 @@ import tempfile
 from harness import report, tlc
 
 
-def validate(module, cfg, traces, on_reject, run=None, name=None, max_rejects=25, timeout=900, workers=1, chunk=400):
+def validate(module, cfg, traces, on_reject, run=None, name=None, max_rejects=60, timeout=900, workers=1, chunk=400):
     """traces: list of JSON-able trace objects. Returns number of traces accepted."""
     accepted = 0
     for start in range(0, len(traces), chunk):
@@ -41,6 +41,6 @@ def validate(module, cfg, traces, on_reject, run=None, name=None, max_rejects=25
             accepted += tid - 1
             batch = batch[tid:]
             rejects += 1
-            if rejects >= max_rejects:
-                break
+            if rejects >= max_rejects or (run is not None and len(run.violations) >= 12):
+                return accepted  # enough evidence of a violation; do not grind through the rest
     return accepted
